@@ -70,16 +70,18 @@ int main() {
             for (int i = 0; i < n && i / 2 < 32; i++) mk[i / 2] |= (uint8_t) (hexval(arg[n - 1 - i]) << (4 * (i & 1)));
             lqibe::MasterKey msk;
             msk.unmarshal<true>(mk, true);
+            // the integer the 32 bytes denote, taken from the bytes themselves (not from what unmarshal stored): it defines params and the expected key
+            BigInt<256> sint; memcpy(&sint, mk, sizeof(mk));
             lqibe::Params params;
             params.p.copy(G2::one);
-            params.sp.multiply_doubleadd(G2::one, msk.s);
+            params.sp.multiply_doubleadd(G2::one, sint);
             lqibe::IDHash h;
             for (int i = 0; i < 48; i++) h.hash[i] = (uint8_t) (17 * i + 3);
             lqibe::ID id;
             lqibe::compute_id_from_hash(id, h);
             lqibe::SecretKey sk;
             lqibe::keygen(sk, msk, id);
-            G1 want; want.multiply_doubleadd(id.q, msk.s);
+            G1 want; want.multiply_doubleadd(id.q, sint);
             G1Affine wanta; wanta.from_projective(want);
             bool sk_ok = G1Affine::equal(wanta, sk.sq);
             set_stream("");
